@@ -364,6 +364,12 @@ def inst_snippet():
                         t = STime(V.add(z.ghost["t0"].sec if has_t0 else 0, V.div(ctx, nm.real("t_s"), sr)))
                     return (z, t, n), {}
                 out.append(Instance(f"{cls},t0={int(has_t0)},t={tform}", build))
+    # a duration in ms against a rate in kHz: the product of the display values is not the sample count
+    def build(interp, ctx, nm):
+        z = mk_signal(interp, ctx, "z", "Signal", has_t0=True, min_len=1, nm=nm, sr_unit="kHz")
+        U = interp.stubs.units
+        return (z, Qty(V.div(ctx, nm.real("t_s"), z.ghost["sr"].val), TIME_DIM, U["us"]), nm.int("n")), {}
+    out.append(Instance("Signal,t0=1,t=quantity-us,rate-kHz", build))
     return out
 
 
